@@ -233,7 +233,9 @@ def coq_prove(ctx, prop_v=None, timeout=3000):
         except FileNotFoundError:
             pass
     t = time.time()
-    rc, out = sh("make -j16 %s" % vo, cwd=COQ, timeout=timeout)
+    os.makedirs(CACHE, exist_ok=True)
+    # the lock serialises Coq builds of concurrently running checks (they share coq/*.vo)
+    rc, out = sh("flock %s sh -c 'rm -f %s; make -j16 %s'" % (os.path.join(CACHE, "coq.lock"), vo, vo), cwd=COQ, timeout=timeout)
     ctx.notes["coq_build_s"] = round(time.time() - t, 1)
     checker = "cd coq && coq_makefile -f _CoqProject -o Makefile && make -j16 %s  (coqc 8.16.1, full .vo build)" % vo
     ctx.cov["checker_cmd"] = checker
@@ -281,6 +283,41 @@ def coq_prove(ctx, prop_v=None, timeout=3000):
           "axioms reported by Print Assumptions: %s" % (sorted(axioms) if axioms else "none (Closed under the global context)")]
     ctx.cov["trusted_base"] = tb
     return True, {"closure": coq_closure(prop_v)}
+
+
+def coq_build(ctx, targets, timeout=3000):
+    """Build model .vo files (proof-free files keep building when a proof file breaks)."""
+    coq_makefile()
+    os.makedirs(CACHE, exist_ok=True)
+    rc, out = sh("flock %s make -k -j16 %s" % (os.path.join(CACHE, "coq.lock"), " ".join(targets)), cwd=COQ, timeout=timeout)
+    return rc == 0, out[-3000:]
+
+
+def extract_build(ctx, extract_v, driver_ml, name, timeout=1800):
+    """Extract (coq/Run/<extract_v> must contain `Extraction "<name>_model.ml" ...` using ExtrOcamlBasic
+    only) and compile together with the hand-written driver ocaml/<driver_ml> into a native runner.
+    Returns (ok, path_or_error)."""
+    coq_makefile()
+    d = os.path.join(CACHE, "ocaml", name)
+    os.makedirs(d, exist_ok=True)
+    src = open(os.path.join(COQ, "Run", extract_v)).read()
+    bad = re.findall(r"Extract\s+(Constant|Inductive|Inlined)|ExtrOcaml(?!Basic)\w+", src)
+    extra = [b for b in bad if b]
+    ctx.notes.setdefault("extraction_directives", []).append({extract_v: extra or "ExtrOcamlBasic only"})
+    rc, out = sh("flock %s sh -c 'make -k -j16 %s && cd %s && coqc -noglob -Q %s CB -w none %s'" % (
+        os.path.join(CACHE, "coq.lock"),
+        " ".join(f[:-2] + ".vo" for f in coq_closure("Run/" + extract_v) if f != "Run/" + extract_v),
+        d, COQ, os.path.join(COQ, "Run", extract_v)), cwd=COQ, timeout=timeout)
+    if rc != 0:
+        return False, out[-3000:]
+    import shutil
+    shutil.copy(os.path.join(VERIF, "ocaml", driver_ml), os.path.join(d, driver_ml))
+    mls = [name + "_model.mli", name + "_model.ml", driver_ml]
+    rc, out = sh("ocamlfind ocamlopt -O2 -w -a -package str,unix -linkpkg %s -o runner" % " ".join(mls),
+                 cwd=d, timeout=timeout)
+    if rc != 0:
+        return False, out[-3000:]
+    return True, os.path.join(d, "runner")
 
 
 def coqchk(ctx, prop_v=None):
@@ -367,7 +404,7 @@ def parse_coq_term(s):
     return app()
 
 
-def coq_eval(ctx, name, preamble, exprs, shard=200, timeout=1200):
+def coq_eval(ctx, name, preamble, exprs, shard=200, timeout=1200, parse=True):
     """Evaluate Gallina expressions with vm_compute in `coqc`.  `exprs` is a list of strings;
     they are grouped `shard` per file and the files are run in parallel.  Returns parsed terms."""
     coq_makefile()
@@ -409,7 +446,7 @@ def coq_eval(ctx, name, preamble, exprs, shard=200, timeout=1200):
         for part in parts:
             m = re.search(r"\n\s*: [^\n]*(?:\n\s+[^\n]*)*\s*$", part)
             body = part[:m.start()] if m else part
-            res.append(parse_coq_term(body))
+            res.append(parse_coq_term(body) if parse else body.strip())
     if len(res) != len(exprs):
         raise RuntimeError("coq_eval: %d answers for %d expressions" % (len(res), len(exprs)))
     return res
